@@ -1,5 +1,7 @@
 (* glue between text and the extracted Coq number types (positive / N / Z stay Coq datatypes) *)
 open Model
+type cstring = Model.string
+type string = Stdlib.String.t
 
 let rec pos_of_int (i : int) : positive =
   if i <= 1 then XH else if i land 1 = 1 then XI (pos_of_int (i lsr 1)) else XO (pos_of_int (i lsr 1))
@@ -47,3 +49,21 @@ let z_of_string (s : string) : z = z_of_int (int_of_string s)
 let string_of_z (x : z) : string = string_of_int (int_of_z x)
 let n_of_string (s : string) : n = n_of_int (int_of_string s)
 let string_of_n (x : n) : string = string_of_int (int_of_n x)
+
+let rec nat_of_int (i : int) : nat = if i <= 0 then O else S (nat_of_int (i - 1))
+let rec int_of_nat (n : nat) : int = match n with O -> 0 | S k -> 1 + int_of_nat k
+
+(* Coq strings (inductive over 8-bit ascii records) to OCaml strings *)
+let char_of_ascii (a : ascii) : char =
+  match a with Ascii (b0, b1, b2, b3, b4, b5, b6, b7) ->
+    let v b k = if b then 1 lsl k else 0 in
+    Char.chr (v b0 0 + v b1 1 + v b2 2 + v b3 3 + v b4 4 + v b5 5 + v b6 6 + v b7 7)
+let string_of_coq (s : cstring) : string =
+  let buf = Buffer.create 64 in
+  let rec go = function EmptyString -> () | String (c, r) -> Buffer.add_char buf (char_of_ascii c); go r in
+  go s; Buffer.contents buf
+
+let fnv (s : string) : string =
+  let h = ref 0xcbf29ce484222325L in
+  String.iter (fun c -> h := Int64.logxor !h (Int64.of_int (Char.code c)); h := Int64.mul !h 0x100000001b3L) s;
+  Printf.sprintf "%Lx" !h
